@@ -45,14 +45,16 @@ type msEntry struct {
 	mid   [2]string
 	owner int
 	recv  string
+	ind   bool // reached through an embedded pointer
 }
 
 type jsModel struct {
-	t     *Table
-	fl    jsFlags
-	ms    map[[2]int]map[string]msEntry // (type, ptr) -> key -> entry
-	cache map[string]bool               // implementedBy
-	asOK  [][]bool                      // [k][q] result of the assertion table in program order
+	t        *Table
+	fl       jsFlags
+	ms       map[[2]int]map[string]msEntry // (type, ptr) -> key -> entry
+	cache    map[string]bool               // implementedBy
+	asOK     [][]bool                      // [k][q] result of the assertion table in program order
+	helperOK map[int]bool                  // disp index -> result of the helper probe's assertion
 }
 
 func newJSModel(t *Table, fl jsFlags) *jsModel {
@@ -68,7 +70,34 @@ func newJSModel(t *Table, fl jsFlags) *jsModel {
 			m.asOK[k][q] = m.assert(k, q)
 		}
 	}
+	// then the helper probes assert to interface{ m() int32 } of m's package, in program order
+	m.helperOK = map[int]bool{}
+	for di, d := range t.Disp {
+		if !isHelperProbe(t, d) {
+			continue
+		}
+		k := 2 * (d.I - 1)
+		if d.Form == "ifaceP" {
+			k++
+		}
+		mid := t.Mids[d.M-1]
+		ck := fmt.Sprint("anon", []string{mid[0] + "." + mid[1]}) + "|" + m.dynKey(k)
+		r, ok := m.cache[ck]
+		if !ok {
+			e, has := m.methodSet(k/2, k%2 == 1)[m.key(mid)]
+			r = has && e.mid == mid
+			m.cache[ck] = r
+		}
+		m.helperOK[di] = r
+	}
 	return m
+}
+
+// isHelperProbe: the method cannot be named in the package of the type; the
+// probe goes through a helper in the method's package (see renderFamily).
+func isHelperProbe(t *Table, d Disp) bool {
+	mid := t.Mids[d.M-1]
+	return mid[0] != "" && mid[0] != t.Types[d.I-1].Pkg && (d.Form == "ifaceV" || d.Form == "ifaceP")
 }
 
 func (m *jsModel) midOf(i, k int) [2]string {
@@ -128,7 +157,7 @@ func (m *jsModel) methodSet(i int, ptr bool) map[string]msEntry {
 			for pass := 0; pass < 2; pass++ { // value-receiver list first, then the pointer-receiver list
 				for k, d := range td.Decl {
 					if (pass == 0 && d == "v") || (pass == 1 && d == "p" && e.ind) {
-						mset = append(mset, msEntry{m.midOf(e.ty, k), e.ty, d})
+						mset = append(mset, msEntry{m.midOf(e.ty, k), e.ty, d, e.ind})
 					} else if pass == 1 && d == "p" && !e.ind && !m.fl.ptrShadow {
 						shadow = append(shadow, m.key(m.midOf(e.ty, k)))
 					}
@@ -233,7 +262,7 @@ func (m *jsModel) resolve(i int, ptrProto bool, mid [2]string, depth int) (msEnt
 			continue
 		}
 		if d == "v" || ptrProto {
-			return msEntry{m.midOf(i, k), i, d}, true
+			return msEntry{m.midOf(i, k), i, d, false}, true
 		}
 	}
 	for _, f := range td.Emb {
@@ -243,7 +272,9 @@ func (m *jsModel) resolve(i int, ptrProto bool, mid [2]string, depth int) (msEnt
 			_, has = m.methodSet(j, true)[want]
 		}
 		if has {
-			return m.resolve(j, true, mid, depth+1)
+			e, ok := m.resolve(j, true, mid, depth+1)
+			e.ind = e.ind || f.Kind == "p"
+			return e, ok
 		}
 	}
 	return msEntry{}, false
@@ -255,16 +286,16 @@ func (m *jsModel) dispatch(d Disp, nameIdx int) (string, bool) {
 	var e msEntry
 	switch d.Form {
 	case "direct", "mvalV", "mvalP":
-		e = msEntry{mid, d.Target - 1, d.Recv} // resolved statically by the compiler (go/types)
+		e = msEntry{mid, d.Target - 1, d.Recv, m.t.Lk[d.I-1][d.M-1].Ind} // resolved statically by the compiler (go/types)
 	case "ifaceV", "mvalIV", "mexprV":
 		var ok bool
 		if e, ok = m.resolve(d.I-1, false, mid, 0); !ok {
-			return "", false
+			return "!panic", true // no such property on the prototype: TypeError, surfaces as a Go panic
 		}
 	default:
 		var ok bool
 		if e, ok = m.resolve(d.I-1, true, mid, 0); !ok {
-			return "", false
+			return "!panic", true
 		}
 	}
 	a := 1
@@ -275,7 +306,7 @@ func (m *jsModel) dispatch(d Disp, nameIdx int) (string, bool) {
 	shared := m.fl.noRecvCopy && d.Form != "direct"
 	if d.Form == "mexprV" {
 		// T.m(x) copies x at the call site: only an object behind an embedded pointer stays shared
-		shared = shared && m.t.Lk[d.I-1][d.M-1].Ind
+		shared = shared && e.ind
 	}
 	if e.recv == "p" || shared {
 		b = a + 1
@@ -309,6 +340,9 @@ func (m *jsModel) predict(c cell, names []string) (string, bool) {
 		return fmt.Sprintf("%d %d", m.switchArm(c.a, t.Arms1), m.switchArm(c.a, t.Arms2)), true
 	case "disp":
 		d := t.Disp[c.a]
+		if c.b == 1 && !m.helperOK[c.a] {
+			return "!panic", true // the helper's assertion to interface{ m() int32 } fails
+		}
 		ni := 0
 		for k, n := range names {
 			if n == t.Mids[d.M-1][1] {
